@@ -63,6 +63,9 @@ func execEncode(in val.V) val.V {
 				}
 			case 3:
 				m.Retry = time.Duration(op.At(2).Signed())
+			case 8:
+				// the member is overwritten by decoding a wire text into it (it may have clones that share its storage)
+				_ = m.UnmarshalText([]byte("data: " + op.At(2).Str() + "\n\n"))
 			case 6, 7:
 				// the ID / type arrives through UnmarshalText from a buffer the caller reuses afterwards
 				buf := append([]byte(nil), op.At(2).Bytes()...)
@@ -103,7 +106,7 @@ func execEncode(in val.V) val.V {
 	})
 }
 
-var payloadPieces = []string{"a", "b c", "", " ", ":", "\n", "\r", "\r\n", "\n\n", "\r\r\n", "id: x", "data: y", "event: z", "retry: 5", "data:", "\x00", "\xef\xbb\xbf", "é", "\xff", ": c", "data", "  x", "\n\ndata: injected\n\n", "\nid: 9", "\revent: e"}
+var payloadPieces = []string{"message", "Message", "a", "b c", "", " ", ":", "\n", "\r", "\r\n", "\n\n", "\r\r\n", "id: x", "data: y", "event: z", "retry: 5", "data:", "\x00", "\xef\xbb\xbf", "é", "\xff", ": c", "data", "  x", "\n\ndata: injected\n\n", "\nid: 9", "\revent: e"}
 
 // lengths around the sizes of buffers an encoder might use
 var boundaryLens = []int{55, 56, 57, 58, 59, 60, 61, 62, 63, 64, 65, 66, 120, 121, 122, 126, 127, 128, 129, 250, 254, 255, 256, 257, 506, 510, 511, 512, 513, 1018, 1022, 1023, 1024, 1025, 4088, 4090, 4094, 4095, 4096, 4097}
@@ -171,9 +174,12 @@ func genEncodeOps(c *Ctx, ops []val.V, t int, withNul bool) []val.V {
 			}
 			ops = append(ops, val.L(val.N(k), tv, val.S(genPayload(r))))
 			c.Count("op:type")
-		default:
+		case x < 93:
 			ops = append(ops, val.L(val.N(3), tv, val.Z(retryValues[r.Intn(len(retryValues))])))
 			c.Count("op:retry")
+		default:
+			ops = append(ops, val.L(val.N(8), tv, val.S(rng.Pick(r, []string{"fresh", "x", "message", "id: 7", " lead"}))))
+			c.Count("op:unmarshal-into")
 		}
 	}
 	return ops
@@ -226,6 +232,18 @@ func genEncode(c *Ctx) {
 			c.Count("exhaustive-line-lengths")
 			c.Emit(val.List(append(append([]val.V{}, pre...), op, dataOp(1, "two"))))
 			c.Emit(val.List(append(append([]val.V{}, pre...), dataOp(1, "two"), op)))
+		}
+	}
+	// exhaustive: a template with k lines is cloned, then a wire text is decoded into the original / the clone
+	for k := 1; k <= 6; k++ {
+		for target := 0; target < 2; target++ {
+			ops := []val.V{}
+			for i := 0; i < k; i++ {
+				ops = append(ops, dataOp(0, string(rune('a'+i))))
+			}
+			ops = append(ops, val.L(val.N(4), val.N(0)), val.L(val.N(8), val.Int(target), val.S("decoded")), dataOp(target, "more"))
+			c.Count("exhaustive-unmarshal-into-cloned")
+			c.Emit(val.List(ops))
 		}
 	}
 	// exhaustive: a template with k lines is cloned twice; appends to the clones and the original in every order
